@@ -21,6 +21,14 @@ CLAIMS = {
     },
 }
 
+CLAIMS["C04"] = {
+    "engine": "verus+kani",
+    "technique": "Verus contracts on the extracted PIDControllerStream::{new,reset,update}: exact one-step contract (expression tree over uninterpreted f32 operators) + idealised one-step contract over the reals, induction lemmas over the spec step for all histories; Kani one-step harnesses for structure/purity (C05 module)",
+    "text": "One-step contract of the real update() for an arbitrary pre-state satisfying the proved data invariant and an arbitrary input (Err / absent / present): post-state == pid_step(pre-state, input) exactly, and abs(post) == pid_step_r(abs(pre), input) over the reals (e = sp - pv, first sample I = D = 0, trapezoid, backward difference, weighted sum, stamped with the input time, reset on absent/error). For all finite histories, with no length bound, induction lemmas over pid_step_r give: reset erases history, closed form (I = trapezoidal sum, D = last backward difference) over any run of present samples, shift invariance, homogeneity, and agreement with the composition of the crate's integral/derivative streams.",
+    "note": V_BASE + K_BASE + "A7: consecutive timestamps differ by less than 2^63 ns (else debug builds panic on overflow). Exact power-of-two scaling at bit level and rounding are not decided (idealised over the reals).",
+    "design_ref": "DESIGN.md section 5 C04",
+}
+
 PENDING_REASON = "check not built yet at this commit (planned in DESIGN.md section 5); not claimed until its obligations are discharged on the unchanged tree"
 
 
